@@ -280,9 +280,9 @@ def fxp_sum(x, sizes='best_sizes', axis=None, dtype=None, out=None, vdtype=None)
     x_sum = np.sum(x_vals, axis=axis, dtype=vdtype)
 
     if dtype is not None:
-        signed, n_word, n_frac = utils.get_sizes_from_dtype(dtype)
+        signed, n_word, n_frac, complex_flag = utils.get_sizes_from_dtype(dtype, complex_flag=True)
 
-        sum_along_axis = Fxp(x_sum, signed=signed, n_word=n_word, n_frac=n_frac)
+        sum_along_axis = Fxp(x_sum + 0j if complex_flag else x_sum, signed=signed, n_word=n_word, n_frac=n_frac)
     elif out is not None:
         if isinstance(out, Fxp):
             sum_along_axis = out(x_sum)
